@@ -43,8 +43,16 @@ Proof.
     now rewrite take_c_app by (rewrite e; reflexivity).
   - inversion H; subst. fold (lenN b). unfold pmap. now rewrite take_c_lenN.
   - destruct (Nat.eqb_spec (length b) 1); [|discriminate]. rewrite u_s_app by assumption.
-    destruct (proto_parse (be b)); inversion H; subst. reflexivity.
+    inversion H; subst. reflexivity.
   - inversion H; subst. rewrite (Hp eq_refl). fold (lenN b). unfold pmap. now rewrite take_c_lenN.
+Qed.
+
+(* every protocol byte decodes (to its variant or to Unknown), consuming that byte *)
+Lemma proto_total puf len b r :
+  from_field_type puf DProto len (b :: r) = Ok (VProto (proto_decode (bN b))) r.
+Proof.
+  unfold from_field_type. rewrite u_s_long by (cbn; lia). cbn [firstn skipn].
+  replace (be [b]) with (bN b) by (unfold be; cbn; lia). reflexivity.
 Qed.
 
 (* ---- V9 records ---- *)
